@@ -77,18 +77,28 @@ def get_trail(obj: object) -> Trail:
 
 BaseExcT = TypeVar("BaseExcT", bound=BaseException)
 
+
+def _render_trail(trail: Trail) -> str:
+    try:
+        return f"Exception was caused at {list(trail)}"
+    except Exception:  # noqa: BLE001
+        # repr of a key taken from the input can fail (e.g. an integer beyond the str conversion limit),
+        # a note must not replace the exception it describes
+        return "Exception was caused at <trail can not be rendered>"
+
+
 if HAS_NATIVE_EXC_GROUP:
     def render_trail_as_note(exc: BaseExcT) -> BaseExcT:
         trail = get_trail(exc)
         if trail:
-            exc.add_note(f"Exception was caused at {list(trail)}")
+            exc.add_note(_render_trail(trail))
         return exc
 else:
     def render_trail_as_note(exc: BaseExcT) -> BaseExcT:
         trail = get_trail(exc)
         if trail:
             if hasattr(exc, "__notes__"):
-                exc.__notes__.append(f"Exception was caused at {list(trail)}")
+                exc.__notes__.append(_render_trail(trail))
             else:
-                exc.__notes__ = [f"Exception was caused at {list(trail)}"]
+                exc.__notes__ = [_render_trail(trail)]
         return exc
